@@ -1,4 +1,5 @@
 import PgBifrost.Proofs.BatcherRouting
+import PgBifrost.Gen.PosLits
 import PgBifrost.Props.C04
 import PgBifrost.Proofs.Kinesis
 import PgBifrost.Gen.Switches
@@ -195,5 +196,42 @@ theorem routing_switch_as_in_source :
       ["channelIndex := 0", "channelIndex = b.roundRobinPosition",
        "channelIndex = utils.QuickHash(batch.GetPartitionKey(), b.workers)", "b.outputChans[channelIndex] <- batch"] := by
   constructor <;> rfl
+
+/-- Every struct literal of the non-test source that lists its values WITHOUT field names, with each value paired with
+the field it lands in according to the struct declaration of this run. A regrouping of a struct's fields silently
+re-routes such values (two `string` fields of the Kafka batch swapped still compile: the per-batch uuid would become the
+batcher's routing key); with this list any such change is a change of the regenerated definition. In particular the
+Kafka batch's `partitionKey` is the partition key it was created for and `kafkaPartitionKey` the fresh uuid; the
+batcher's ages, tick rate, worker count, memory limit and routing method land in the fields of those names. -/
+theorem positional_literals_as_in_source :
+    PgBifrost.Gen.PosLits.lits = [
+      ("app/runner.go:New", "Runner", ["shutdownHandler := shutdownHandler", "statsChan := statsChan", "replicationClient := &replicationClient", "filterInstance := &filterInstance", "partitionerInstance := &partitionerInstance", "marshallerInstance := &marshallerInstance", "transportManager := &transportManager", "statsAggregator := &statsAggregator", "progressTracker := &progressTracker", "statsReporter := statsReporter"]),
+      ("filter/filter.go:New", "Filter", ["shutdownHandler := shutdownHandler", "inputChan := inputChan", "OutputChan := outputChan", "statsChan := statsChan", "passthrough := passthrough", "whitelist := whitelist", "regex := regex", "tablelist := tablelist", "regexlist := regexlist"]),
+      ("marshaller/marshaller.go:New", "Marshaller", ["shutdownHandler := shutdownHandler", "inputChan := inputChan", "OutputChan := outputChan", "statsChan := statsChan", "noMarshalOldValue := noMarshalOldValue"]),
+      ("marshaller/marshaller.go:Start", "MarshalledMessage", ["Operation := walMessage.Pr.Operation", "Table := walMessage.Pr.Relation", "Json := nil", "TimeBasedKey := walMessage.TimeBasedKey", "WalStart := walMessage.WalStart", "Transaction := walMessage.Pr.Transaction", "PartitionKey := walMessage.PartitionKey"]),
+      ("partitioner/partitioner.go:New", "Partitioner", ["shutdownHandler := shutdownHandler", "inputChan := inputChan", "OutputChan := outputChan", "statsChan := statsChan", "method := partMethod", "buckets := buckets"]),
+      ("replication/message.go:XLogDataToWalMessage", "WalMessage", ["WalStart := uint64(xld.WALStart)", "ServerWalEnd := uint64(xld.ServerWALEnd)", "ServerTime := xld.ServerTime.UnixMilli()", "TimeBasedKey := \"\"", "Pr := pr", "PartitionKey := \"\""]),
+      ("shutdown/shutdown.go:NewShutdownHandler", "ShutdownHandler", ["TerminateCtx := terminateCtx", "CancelFunc := cancelFunc"]),
+      ("stats/aggregator/aggregator.go:NewConfigureAggregates", "Aggregator", ["shutdownHandler := shutdownHandler", "timeNow := timeNow", "inputChan := inputChan", "outputChan := outputChan", "aggregateTimeNano := aggregateTimeNano", "aggregateMaxBuckets := aggregateMaxBuckets", "muAggregates := muAggregates", "aggregates := aggregates"]),
+      ("transport/batch/generic_batch.go:NewGenericBatch", "GenericBatch", ["maxSize := maxSize", "messages := messages", "transactions := transactions", "byteSize := 0", "mtime := time.Now().UnixNano()", "ctime := time.Now().UnixNano()", "dtime := 0", "partitionKey := partitionKey"]),
+      ("transport/batcher/batcher.go:NewBatcher", "Batcher", ["shutdownHandler := shutdownHandler", "inputChan := inputChan", "outputChans := outputChans", "txnsSeenChan := txnsSeenChan", "txnsWritten := txnsWritten", "statsChan := statsChan", "tickRate := time.Duration(tickRate) * time.Millisecond", "batchFactory := batchFactory", "workers := workers", "batches := batches", "flushBatchUpdateAge := time.Duration(flushBatchUpdateAge) * time.Millisecond", "flushBatchMaxAge := time.Duration(flushBatchMaxAge) * time.Millisecond", "batcherMemorySoftLimit := maxMemoryBytes", "routingMethod := routingMethod", "roundRobinPosition := 0", "txnsSeenTimeout := time.Second * 12", "seenList := []*progress.Seen{}"]),
+      ("transport/manager/manager.go:New", "TransportManager", ["inputChan := inputChan", "txnsSeen := txnsSeen", "txnsWritten := txnsWritten", "statsChan := statsChan", "transportType := transportType", "transportConfig := transportConfig", "workerNum := workerNum", "batcher := b", "transporterGroup := t"]),
+      ("transport/progress/ledger.go:NewLedger", "Ledger", ["items := omap", "transactionToTimeBasedKey := t"]),
+      ("transport/progress/ledger.go:updateSeen", "LedgerEntry", ["Transaction := seen.Transaction", "TimeBasedKey := seen.TimeBasedKey", "CommitWalStart := seen.CommitWalStart", "Count := 0", "TotalMsgs := seen.TotalMsgs"]),
+      ("transport/progress/ledger.go:updateWritten", "LedgerEntry", ["Transaction := written.Transaction", "TimeBasedKey := written.TimeBasedKey", "CommitWalStart := 0", "Count := written.Count", "TotalMsgs := 0"]),
+      ("transport/progress/progress_tracker.go:New", "ProgressTracker", ["shutdownHandler := shutdownHandler", "txnSeenChan := txnSeenChan", "txnsWritten := txnsWritten", "statsChan := statsChan", "OutputChan := outputChan", "ledger := ledger", "stopChan := stopChan"]),
+      ("transport/progress/progress_tracker.go:emitProgress", "contiguousTuple", ["timeBasedKey := timeBasedKey", "walStart := walStart", "transaction := transaction"]),
+      ("transport/progress/utils.go:UpdateTransactions", "Written", ["Transaction := msg.Transaction", "TimeBasedKey := msg.TimeBasedKey", "Count := 1"]),
+      ("transport/transporters/kafka/client_config.yaml.go:clientLogger", "saramaLogger", ["prefix := prefix", "logFn := log.Debug"]),
+      ("transport/transporters/kafka/client_config.yaml.go:clientLogger", "saramaLogger", ["prefix := prefix", "logFn := log.Info"]),
+      ("transport/transporters/kafka/factory.go:NewBatchFactory", "KafkaBatchFactory", ["topic := topic", "maxMessageBytes := maxMessageBytes", "batchSize := batchSize", "kafkaPartMethod := partMethod"]),
+      ("transport/transporters/kafka/batch/batch.go:NewKafkaBatch", "KafkaBatch", ["maxBatchSize := maxBathSize", "maxMessageBytes := maxMessageBytes", "kafkaMessages := messages", "transactions := transactions", "byteSize := 0", "mtime := time.Now().UnixNano()", "ctime := time.Now().UnixNano()", "partitionKey := partitionKey", "topic := topic", "kafkaPartMethod := kafkaPartMethod", "kafkaPartitionKey := kafkaPartitionKey"]),
+      ("transport/transporters/kafka/transporter/transporter.go:NewTransporter", "KafkaTransporter", ["shutdownHandler := shutdownHandler", "inputChan := inputChan", "txnsWritten := txnsWritten", "statsChan := statsChan", "log := log", "kafkaProducer := producer", "topic := topic"]),
+      ("transport/transporters/kinesis/batch/batch.go:NewKinesisBatch", "KinesisBatch", ["records := records", "transactions := transactions", "batchSizeBytes := 0", "mtime := time.Now().UnixNano()", "ctime := time.Now().UnixNano()", "partitionMethod := partitionMethod", "partitionKey := partitionKey"]),
+      ("transport/transporters/kinesis/transporter/transporter.go:NewTransporterWithInterface", "KinesisTransporter", ["shutdownHandler := shutdownHandler", "inputChan := inputChan", "txnsWritten := txnsWritten", "statsChan := statsChan", "log := log", "client := client", "streamName := streamName", "retryPolicy := retryPolicy"]),
+      ("transport/transporters/rabbitmq/transporter/transporter.go:setupChannel", "openChannel", ["channel := t.channel", "publishNotify := t.publishNotify", "closeNotify := t.closeNotify"]),
+      ("transport/transporters/s3/transporter/transporter.go:NewTransporterWithInterface", "S3Transporter", ["shutdownHandler := shutdownHandler", "inputChan := inputChan", "txnsWritten := txnsWritten", "statsChan := statsChan", "log := log", "client := client", "bucketName := bucketName", "keySpace := keySpace", "retryPolicy := retryPolicy", "bufMaxReuse := bufMaxReuse", "bufUsedCount := 0", "gz := pgzip.NewWriter(gzBuf)", "gzBuf := gzBuf"]),
+      ("transport/transporters/stdout/transporter/transporter.go:NewTransporter", "StdoutTransporter", ["shutdownHandler := shutdownHandler", "inputChan := inputChan", "txnsWritten := txnsWritten", "statsChan := statsChan", "log := log", "id := id"])
+    ] := rfl
 
 end PgBifrost.Props.C05
